@@ -2,6 +2,7 @@ package core
 
 import (
 	"fmt"
+	"github.com/junioryono/godi/v4/verifh/rt"
 	"math/rand"
 	"strings"
 	"sync"
@@ -434,5 +435,64 @@ func runC03(c *eng.Ctx) {
 		r.EditAfterBuild = k%4 == 2
 		standardScript(rng, r, 8)
 		finish(idx, r, "random")
+	}
+	// a constructor that was handed transient instances fails once (error or panic) and is asked
+	// again in the same scope: what it receives the second time is as fresh as the first time
+	nf := c.Pick(250, 4000)
+	for k := 0; k < nf; k++ {
+		idx, mine := cr.next()
+		if !mine {
+			continue
+		}
+		rng := cr.rng(idx)
+		lifes := []godi.Lifetime{godi.Transient, godi.Transient, godi.Scoped, godi.Singleton}
+		s, m := GenSpec(rng, GenOpts{Want: ClsOK, Specials: k%3 == 0, Lifetimes: lifes})
+		if s == nil {
+			continue
+		}
+		c.R.Begin(idx)
+		base := NewRun(s, m, nil, nil)
+		standardScript(rng, base, 0)
+		o := Digest(base)
+		// invocations outside Build / scope creation whose constructor received a transient
+		var cands []int
+		for ri, run := range o.Runs {
+			if run.Reg < 0 || run.Op <= 0 || run.Op >= len(base.Ops) || base.Ops[run.Op].Kind == OpCreate || base.Ops[run.Op].Kind == OpBuild {
+				continue
+			}
+			for _, b := range m.Regs[run.Reg].Binds {
+				for _, p := range b.Targets {
+					if p.Reg >= 0 && m.Regs[p.Reg].Life == godi.Transient && m.Regs[p.Reg].Meta != nil {
+						cands = append(cands, ri)
+					}
+				}
+			}
+		}
+		if !base.Built || len(cands) == 0 {
+			c.R.End(idx, eng.Hash("c03-retry-none", s.Canon()), false)
+			continue
+		}
+		run := o.Runs[cands[rng.Intn(len(cands))]]
+		kind := rt.FPanic
+		if pool.Ctors[run.Ctor].HasErr && rng.Intn(2) == 0 {
+			kind = rt.FErr
+		}
+		ops := append([]Op{}, base.Ops[:run.Op+1]...)
+		ops = append(ops, base.Ops[run.Op], base.Ops[run.Op]) // the failed request is made again, twice
+		ops = append(ops, base.Ops[run.Op+1:]...)
+		fr := replayOps(s, m, ops, []rt.Fault{{Ctor: run.Ctor, Nth: run.Nth, Kind: kind, PanicIdx: k % len(rt.PanicVals)}}, nil)
+		fo := Digest(fr)
+		var fs []Finding
+		for _, f := range MonC03(fr, fo) {
+			// (a transient made for a constructor that is never reached because an earlier
+			// argument failed is delivered to nobody: not judged here)
+			if f.Clause == "handed-out-twice" || f.Clause == "identity-served-twice" || f.Clause == "stale-instance" {
+				f.Sig += ":after-the-consumer-failed-once"
+				fs = append(fs, f)
+			}
+		}
+		report(c, "C03", idx, fr, fs)
+		c.R.Count("retry_after_failure_cases", 1)
+		c.R.End(idx, eng.Hash("c03-retry", s.Canon(), run.Ctor, run.Nth, int(kind)), true)
 	}
 }
